@@ -11,10 +11,12 @@
 //	op         p:k:v:ch | g:k | d:k            (ch = pool oracle, ignored here)
 //	           P:k:v1.v2...:ch                 (multi map PutMany; P:k::ch = no values)
 //	           a:k | e:k                       (set Add / Exist; d:k = Delete)
+//	           a leading '!' (e.g. !d:3) = "unobserved": the operation runs and its own return
+//	           value is printed, but Len/Keys/Values/dump/order list are NOT called after it
 //
 // stdout: one line per history, one observable per op joined by '|':
 //
-//	ret/len/keys/vals/dump[/backward]
+//	ret/len/keys/vals/dump[/backward]      (just `ret` for an unobserved op)
 package c03
 
 import (
@@ -127,6 +129,7 @@ func setFamilies(code, eq string) {
 type errCyclic struct{}
 
 type smap[K any] struct {
+	quiet    bool // the current op is unobserved
 	cyclic   func() bool
 	m        mapx.VerifMap[K, int64]
 	mk       func(int64) K
@@ -145,8 +148,11 @@ func (s *smap[K]) keys() string {
 }
 
 func (s *smap[K]) obs(ret string) string {
-	if s.cyclic != nil && s.cyclic() {
+	if s.cyclic != nil && s.cyclic() { // white-box walk with a guard: calls no API method
 		panic(errCyclic{})
+	}
+	if s.quiet {
+		return ret
 	}
 	vals := s.m.Values()
 	o := ret + "/" + strconv.FormatInt(s.m.Len(), 10) + "/" + s.keys() + "/" + joinInts(vals, ";") + "/"
@@ -166,7 +172,8 @@ func (s *smap[K]) obs(ret string) string {
 }
 
 func (s *smap[K]) step(op string) string {
-	f := strings.Split(op, ":")
+	s.quiet = strings.HasPrefix(op, "!")
+	f := strings.Split(strings.TrimPrefix(op, "!"), ":")
 	switch f[0] {
 	case "p":
 		if err := s.m.Put(s.mk(atoi(f[1])), atoi(f[2])); err != nil {
@@ -233,6 +240,7 @@ func linkedDump(m *mapx.LinkedMap[hk, int64]) func() string {
 
 // ---- multi map runner ----
 type mmap[K any] struct {
+	quiet  bool
 	cyclic func() bool
 	m      *mapx.MultiMap[K, int64]
 	mk     func(int64) K
@@ -243,6 +251,9 @@ type mmap[K any] struct {
 func (s *mmap[K]) obs(ret string) string {
 	if s.cyclic != nil && s.cyclic() {
 		panic(errCyclic{})
+	}
+	if s.quiet {
+		return ret
 	}
 	ks := s.m.Keys()
 	l := make([]int64, len(ks))
@@ -265,7 +276,8 @@ func (s *mmap[K]) obs(ret string) string {
 }
 
 func (s *mmap[K]) step(op string) string {
-	f := strings.Split(op, ":")
+	s.quiet = strings.HasPrefix(op, "!")
+	f := strings.Split(strings.TrimPrefix(op, "!"), ":")
 	switch f[0] {
 	case "P":
 		var vs []int64
@@ -323,7 +335,8 @@ func multiDump(m *mapx.MultiMap[hk, int64]) func() string {
 
 // ---- set runner ----
 func setStep(s *set.MapSet[int64], op string) string {
-	f := strings.Split(op, ":")
+	quiet := strings.HasPrefix(op, "!")
+	f := strings.Split(strings.TrimPrefix(op, "!"), ":")
 	ret := "badop"
 	switch f[0] {
 	case "a":
@@ -334,6 +347,9 @@ func setStep(s *set.MapSet[int64], op string) string {
 		ret = "unit"
 	case "e":
 		ret = strconv.Itoa(b2i(s.Exist(atoi(f[1]))))
+	}
+	if quiet {
+		return ret
 	}
 	ks := s.Keys()
 	o := ret + "/" + joinInts(ks, ";")
